@@ -735,7 +735,7 @@ func (w *Writer) AddSkin(skeleton animation.Skeleton) (*int, int) {
 }
 
 func (w *Writer) AddAnimations(animations []animation.Sequence, skeleton animation.Skeleton, skeletonNode int) {
-	for i, animation := range animations {
+	for _, animation := range animations {
 
 		min := vector3.New(math.MaxFloat64, math.MaxFloat64, math.MaxFloat64)
 		max := vector3.New(-math.MaxFloat64, -math.MaxFloat64, -math.MaxFloat64)
@@ -820,7 +820,7 @@ func (w *Writer) AddAnimations(animations []animation.Sequence, skeleton animati
 						Path: AnimationChannelTargetPath_TRANSLATION,
 						Node: skeleton.Lookup(animation.Joint()) + skeletonNode,
 					},
-					Sampler: i,
+					Sampler: 0, // the one sampler of THIS animation
 				},
 			},
 		})
